@@ -238,9 +238,30 @@ def run(ctx):
         got[v[0] if v else "<other>"] = D.show(p.ret)
     ctx.check(got.get("Ed25519", "").startswith("Option::Some(Ed25519Verifier") and all(r == "Option::None" for k, r in got.items() if k != "Ed25519") and len(got) >= 2,
               "C02.ed25519", "C02.ed25519:algorithms", w.where(f8), bad_msg=f"{got}")
+    # ---- earlier signatures and `unsigned` are left intact --------------------------------------------------------------------------------
+    ctx.rule("C02.preserve", "sign_json success paths: the only removals are the temporary remove_entry of `signatures` and `unsigned` from the object (both "
+                             "re-inserted); the signature sets are only extended (entry/or_insert*/insert): nothing is retained-out, removed or cleared")
+    dexs = D.Dex(w.lookup, adt_discr=w.adt_discr, effects=lambda n: "btree" in n, unroll=1, inline=U.sig_inline)
+    fs = w.fn(f"{FN}::sign_json")
+    DESTRUCTIVE = ("retain", "remove", "remove_entry", "clear", "pop_first", "pop_last", "split_off", "append", "extract_if", "drain", "take", "replace", "swap")
+    oks = [p_ for p_ in dexs.paths(fs, [D.sym("entity"), D.sym("kp"), D.sym("object")]) if p_.kind == "ret" and U.is_ok(p_.ret)]
+    ctx.floor("sign_json success paths (preserve)", len(oks), 2)
+    for i_, p_ in enumerate(oks):
+        destr = [(e[0].rsplit("::", 1)[-1], U.shows(e[1])) for e in p_.effects if e[0].rsplit("::", 1)[-1] in DESTRUCTIVE]
+        temp = [d_ for d_ in destr if d_[0] == "remove_entry" and d_[1][0] == "object" and d_[1][1] in ("'signatures'", "'unsigned'")]
+        other = [d_ for d_ in destr if d_ not in temp]
+        ins = [U.shows(e[1]) for e in p_.effects if e[0].rsplit("::", 1)[-1] == "insert"]
+        # the key put back is the literal or the key of the removed entry itself
+        restored = any(x[0] == "object" and "'signatures'" in x[1] for x in ins)
+        ctx.check(not other and restored, "C02.preserve", f"C02.preserve:sign_json:{i_}", w.where(fs),
+                  bad_msg=f"a successful sign_json applies {[(d_[0], d_[1][0][:50]) for d_ in other]}: signatures made earlier (another key version of the same entity, "
+                          f"other entities) are not left intact")
     # the verifier is selected by SigningKeyId::algorithm(): it must cut the key id where sign_json's KeyId::from_parts put the colon
     from . import C10 as _C10
     _C10.split_agreement(ctx, w, "C02.keyid-split", only={"key_id::KeyId"})
+    # what is signed / hashed is the canonical JSON form: the canonical-JSON rules of C01 are part of this check
+    from . import C01 as _C01
+    _C01.run(ctx)
     ctx.assumptions += ["ed25519-dalek implements RFC 8032; base64 crate implements RFC 4648",
                         "reviewed exception: serde_json::to_string(&CanonicalJsonObject) cannot fail, so its Err edge in sign_json is infeasible"]
     ctx.samples += [{"path": "sign_json, signatures = 5", "expected": "Err and object restored"},
